@@ -679,6 +679,9 @@ struct LeafEval {
   alt_prefix: Option<u8>,
   /// leaf installs its own score node (constant_score, rank_feature)
   custom_score: bool,
+  /// documents that hold >= 2 distinct alternatives of one phrase position for which the search
+  /// analyzer emits several tokens (evidence counter of slice P)
+  multi_alt: u8,
 }
 
 impl<'a> View<'a> {
@@ -721,6 +724,17 @@ impl<'a> View<'a> {
     }
   }
 
+  /// Does document d hold at least two distinct alternatives of one query position of the phrase?
+  fn phrase_multi_alt(&self, d: usize, field: &str, terms: &[String]) -> bool {
+    let q = self.ana.search_toks(field, &terms.join(" "));
+    let mut by_pos: BTreeMap<u32, BTreeSet<String>> = BTreeMap::new();
+    for (t, p) in q {
+      by_pos.entry(p).or_default().insert(t);
+    }
+    let toks: BTreeSet<&str> = self.field_tokens(d, field).into_iter().collect();
+    by_pos.values().any(|alts| alts.len() >= 2 && alts.iter().filter(|a| toks.contains(a.as_str())).count() >= 2)
+  }
+
   fn doc_has_phrase(&self, d: usize, field: &str, terms: &[String], slop: u32) -> Option<bool> {
     let q = self.ana.search_toks(field, &terms.join(" "));
     if q.is_empty() {
@@ -760,7 +774,7 @@ impl<'a> View<'a> {
 
   fn eval_leaf(&self, leaf: &Leaf, fz: Option<&Fuzzy>) -> LeafEval {
     let n = self.n();
-    let mut out = LeafEval { mask: Some(0), scored: 0, term_bearing: false, alt: None, alt_prefix: None, custom_score: false };
+    let mut out = LeafEval { mask: Some(0), scored: 0, term_bearing: false, alt: None, alt_prefix: None, custom_score: false, multi_alt: 0 };
     if fz.is_some() && !leaf.fuzzy_ok() {
       out.mask = None;
       return out;
@@ -788,6 +802,14 @@ impl<'a> View<'a> {
       Leaf::Qs { fields, terms, nots, phrases, .. } => {
         let defaults: Vec<String> = fields.clone().unwrap_or_else(|| self.ana.text_fields.clone());
         out.term_bearing = !terms.is_empty();
+        for (pf, pt) in phrases {
+          let fs: Vec<String> = pf.clone().map_or_else(|| defaults.clone(), |f| vec![f]);
+          for d in 0..n {
+            if fs.iter().any(|f| self.phrase_multi_alt(d, f, pt)) {
+              out.multi_alt |= 1 << d;
+            }
+          }
+        }
         let pos = per_doc(&|d| {
           let mut any = false;
           for t in terms {
@@ -832,6 +854,11 @@ impl<'a> View<'a> {
           Some(f) => vec![f.clone()],
           None => self.ana.text_fields.clone(),
         };
+        for d in 0..n {
+          if fs.iter().any(|f| self.phrase_multi_alt(d, f, terms)) {
+            out.multi_alt |= 1 << d;
+          }
+        }
         out.mask = per_doc(&|d| {
           let mut any = false;
           for f in &fs {
@@ -1383,6 +1410,106 @@ fn trees_slice_c(leaves: &[Leaf]) -> Vec<Tree> {
 }
 
 // ---------------------------------------------------------------------------------------------
+// Slice P: phrases over schemas whose SEARCH analyzer emits several tokens at one position.
+// README: synonyms are "expanded at the same position"; "You can also roll your own by defining an
+// analyzer with an edge_ngram filter"; phrase + slop as for every other schema. A phrase position
+// matches when ANY of the alternatives the search analyzer emits for it stands at that position of
+// the document (document tokens from the index analyzer) - the generic rule of `doc_has_phrase`.
+
+struct PSpec {
+  name: &'static str,
+  schema: Value,
+  /// document token alphabet: start token, the alternatives, filler
+  alphabet: Vec<&'static str>,
+  start: &'static str,
+  filler: &'static str,
+  /// query terms for which the search analyzer emits several tokens
+  multis: Vec<&'static str>,
+  max_len_quick: usize,
+  max_len_thorough: usize,
+}
+
+fn pspecs() -> Vec<PSpec> {
+  let syn_schema = |rules: Value| {
+    json!({"doc_id_field": "_id",
+      "analyzers": [{"name": "syn", "tokenizer": "default", "filters": [{"synonyms": rules}]}],
+      "text_fields": [{"name": "body", "analyzer": "default", "search_analyzer": "syn", "stored": true, "indexed": true}],
+      "keyword_fields": [], "numeric_fields": []})
+  };
+  vec![
+    PSpec { name: "P-search-synonym-one-way", schema: syn_schema(json!([{"from": ["f"], "to": ["q"]}])), alphabet: vec!["r", "f", "q", "x"], start: "r", filler: "x", multis: vec!["f"], max_len_quick: 6, max_len_thorough: 6 },
+    PSpec { name: "P-search-synonym-two-way", schema: syn_schema(json!([{"from": ["f"], "to": ["q"]}, {"from": ["q"], "to": ["f"]}])), alphabet: vec!["r", "f", "q", "x"], start: "r", filler: "x", multis: vec!["f", "q"], max_len_quick: 5, max_len_thorough: 6 },
+    PSpec { name: "P-search-synonym-multi-target", schema: syn_schema(json!([{"from": ["f"], "to": ["q", "s"]}])), alphabet: vec!["r", "f", "q", "s", "x"], start: "r", filler: "x", multis: vec!["f"], max_len_quick: 5, max_len_thorough: 6 },
+    PSpec {
+      name: "P-edge-ngram-index-and-search",
+      schema: json!({"doc_id_field": "_id",
+        "analyzers": [{"name": "ng", "tokenizer": "default", "filters": [{"edge_ngram": {"min": 1, "max": 2}}]}],
+        "text_fields": [{"name": "body", "analyzer": "ng", "stored": true, "indexed": true}],
+        "keyword_fields": [], "numeric_fields": []}),
+      alphabet: vec!["r", "ab", "a", "x"],
+      start: "r",
+      filler: "x",
+      multis: vec!["ab"],
+      max_len_quick: 5,
+      max_len_thorough: 6,
+    },
+  ]
+}
+
+/// Leaves of slice P: phrases of 2..3 terms with the multi-token term at each slot x slop 0..3 as
+/// phrase node, the same phrases as query-string phrase (slop 0), and the start term.
+fn p_leaves(ps: &PSpec) -> Vec<Leaf> {
+  let (r, x) = (ps.start, ps.filler);
+  let mut phrases: Vec<Vec<&str>> = Vec::new();
+  for m in &ps.multis {
+    phrases.extend([vec![r, *m], vec![*m, r], vec![x, *m], vec![*m, x], vec![*m, *m]]);
+    phrases.extend([vec![*m, r, x], vec![r, *m, x], vec![r, x, *m], vec![r, *m, r]]);
+  }
+  let mut l = vec![Leaf::Term { field: s("body"), value: s(r) }];
+  for p in &phrases {
+    let terms: Vec<String> = p.iter().map(|t| s(t)).collect();
+    for slop in 0..=3u32 {
+      l.push(Leaf::Phrase { field: Some(s("body")), terms: terms.clone(), slop });
+    }
+    l.push(Leaf::Qs { text: format!("\"{}\"", p.join(" ")), legacy: false, fields: None, terms: vec![], nots: vec![], phrases: vec![(None, terms.clone())] });
+  }
+  l
+}
+
+/// Trees of slice P: every leaf alone; every phrase node under bool must / should / must_not and as
+/// a must clause next to the scored start term.
+fn trees_slice_p(leaves: &[Leaf]) -> Vec<Tree> {
+  let mut out: Vec<Tree> = (0..leaves.len()).map(Tree::L).collect();
+  for i in 0..leaves.len() {
+    if !matches!(leaves[i], Leaf::Phrase { .. }) {
+      continue;
+    }
+    let b = |must: Vec<Tree>, should: Vec<Tree>, must_not: Vec<Tree>| Tree::Bool { must, should, must_not, filter: None, msm: None };
+    out.push(b(vec![Tree::L(i)], vec![], vec![]));
+    out.push(b(vec![], vec![Tree::L(i)], vec![]));
+    out.push(b(vec![], vec![], vec![Tree::L(i)]));
+    out.push(b(vec![Tree::L(i), Tree::L(0)], vec![], vec![]));
+  }
+  out
+}
+
+/// Worlds of slice P: EVERY document of 3..=max_len tokens over the alphabet, eight consecutive
+/// documents per world, each world as one segment and as two segments.
+fn worlds_slice_p(ps: &PSpec, max_len: usize) -> Vec<World> {
+  let texts: Vec<String> = sequences(&ps.alphabet, 3, max_len).into_iter().map(|t| t.join(" ")).collect();
+  let mut out = Vec::new();
+  for chunk in texts.chunks(8) {
+    let docs: Vec<Value> = chunk.iter().enumerate().map(|(i, t)| json!({"_id": id_of(i), "body": t})).collect();
+    let n = docs.len();
+    out.push(World::new(ps.name, ps.schema.clone(), docs.clone()));
+    if n >= 2 {
+      out.push(World::new(ps.name, ps.schema.clone(), docs).with_layout(vec![n / 2, n - n / 2]));
+    }
+  }
+  out
+}
+
+// ---------------------------------------------------------------------------------------------
 // Worlds
 
 fn gen_worlds(sp: &Spec, shapes: &[Value], max_docs: usize) -> Vec<World> {
@@ -1592,6 +1719,13 @@ fn case_json(world: &World, leaves: &[Leaf], t: &Tree, fz: Option<&Fuzzy>, oblig
 
 /// Run one self-contained case from scratch (replay, and double-run of witnesses).
 fn run_case(cs: &Value) -> Result<Option<(Option<String>, String)>, String> {
+  Ok(run_case_full(cs)?.map(|f| (f.0, f.1)))
+}
+
+/// (signature, what, expected ids, observed ids) of a failing case.
+type CaseFail = (Option<String>, String, Vec<String>, Option<Vec<String>>);
+
+fn run_case_full(cs: &Value) -> Result<Option<CaseFail>, String> {
   let world = World::from_json(&cs["world"]);
   let leaves: Vec<Leaf> = serde_json::from_value(cs["leaves"].clone()).map_err(|e| format!("leaves: {e}"))?;
   let tree: Tree = serde_json::from_value(cs["tree"].clone()).map_err(|e| format!("tree: {e}"))?;
@@ -1605,9 +1739,38 @@ fn run_case(cs: &Value) -> Result<Option<(Option<String>, String)>, String> {
   let rq = build_request(&tree.to_json(&leaves), fz.as_ref());
   let res = search_caught(&reader, &rq);
   Ok(match judge(&tree, &le, &view, &res, obligation) {
-    Outcome::Fail { sig, what, .. } => Some((sig, what)),
+    Outcome::Fail { sig, what, expected, actual } => Some((sig, what, ids_of(expected, &view), actual.map(|a| ids_of(a, &view)))),
     _ => None,
   })
+}
+
+/// Witness minimisation: if the same failure class shows on a corpus reduced to ONE of the
+/// documents the two sides disagree on, report that single-document case instead.
+fn shrink_witness(sig: Option<&str>, what: &str, case: &Value) -> (String, Value) {
+  let docs = case["world"]["docs"].as_array().cloned().unwrap_or_default();
+  if docs.len() > 1 {
+    let ids = |v: &Value| -> Vec<String> { v.as_array().map(|a| a.iter().filter_map(|x| x.as_str().map(|s| s.to_string())).collect()).unwrap_or_default() };
+    let (exp, obs) = (ids(&case["expected"]), ids(&case["observed"]));
+    for d in &docs {
+      let id = d["_id"].as_str().unwrap_or("").to_string();
+      if exp.contains(&id) == obs.contains(&id) {
+        continue;
+      }
+      let mut c = case.clone();
+      c["world"]["docs"] = json!([d]);
+      c["world"]["layout"] = json!([1]);
+      c["world"]["deleted"] = json!([]);
+      if let Ok(Some((s2, w2, e2, o2))) = run_case_full(&c) {
+        if s2.as_deref() == sig {
+          c["expected"] = json!(e2);
+          c["observed"] = json!(o2);
+          let w = World::from_json(&c["world"]);
+          return (format!("{} query={}: {} [shrunk from a {}-document corpus]", w.describe(), c["query"], w2, docs.len()), c);
+        }
+      }
+    }
+  }
+  (what.to_string(), case.clone())
 }
 
 // ---------------------------------------------------------------------------------------------
@@ -1626,6 +1789,8 @@ struct Acc {
   undetermined: AtomicU64,
   h9: AtomicU64,
   obligations: AtomicU64,
+  /// judged cases in which a live document holds >= 2 alternatives of one multi-token phrase position
+  multi_alt_cases: AtomicU64,
   worlds_done: AtomicU64,
   outcomes: Mutex<BTreeSet<String>>,
   fails: Mutex<BTreeMap<String, SigAcc>>,
@@ -1658,6 +1823,7 @@ struct Prepared {
   n_leaves: usize,
   depth: usize,
   fuzzy: Option<usize>,
+  leaf_ids: Vec<usize>,
 }
 
 struct Slice {
@@ -1674,7 +1840,9 @@ fn prepare(trees: Vec<Tree>, leaves: &[Leaf], fz: Option<(usize, &Fuzzy)>) -> Ve
     .into_par_iter()
     .map(|t| {
       let q = t.to_json(leaves);
-      Prepared { req: build_request(&q, fz.map(|f| f.1)), n_leaves: t.n_leaves(), depth: t.depth(), fuzzy: fz.map(|f| f.0), tree: t }
+      let mut leaf_ids = Vec::new();
+      t.leaf_ids(&mut leaf_ids);
+      Prepared { req: build_request(&q, fz.map(|f| f.1)), n_leaves: t.n_leaves(), depth: t.depth(), fuzzy: fz.map(|f| f.0), leaf_ids, tree: t }
     })
     .collect()
 }
@@ -1696,6 +1864,7 @@ fn run_world(acc: &Acc, sl: &Slice, widx: usize, sp_leaves: &[Leaf], ana: &Ana, 
   let mut nontrivial = 0u64;
   let mut undetermined = 0u64;
   let mut h9 = 0u64;
+  let mut multi_alt = 0u64;
   let mut local_outcomes: BTreeSet<(u32, usize)> = BTreeSet::new();
   for (tidx, p) in sl.trees.iter().enumerate() {
     let slot = p.fuzzy.map_or(0, |f| f + 1);
@@ -1719,6 +1888,9 @@ fn run_world(acc: &Acc, sl: &Slice, widx: usize, sp_leaves: &[Leaf], ana: &Ana, 
     }
     let res = search_caught(&reader, &p.req);
     evals += 1;
+    if p.leaf_ids.iter().any(|i| le[*i].multi_alt & view.live != 0) {
+      multi_alt += 1;
+    }
     match judge(&p.tree, le, &view, &res, false) {
       Outcome::Pass { expected } => {
         let k = expected.count_ones();
@@ -1790,6 +1962,7 @@ fn run_world(acc: &Acc, sl: &Slice, widx: usize, sp_leaves: &[Leaf], ana: &Ana, 
   acc.nontrivial.fetch_add(nontrivial, Ordering::Relaxed);
   acc.undetermined.fetch_add(undetermined, Ordering::Relaxed);
   acc.h9.fetch_add(h9, Ordering::Relaxed);
+  acc.multi_alt_cases.fetch_add(multi_alt, Ordering::Relaxed);
   acc.worlds_done.fetch_add(1, Ordering::Relaxed);
   {
     let mut o = acc.outcomes.lock();
@@ -1918,12 +2091,29 @@ pub fn run(ctx: &Ctx) -> i32 {
     bounds.push(json!({"slice": "C-fuzzy", "schema": sp.name, "doc_shapes": sp.docs_full.len(), "max_docs": 2, "worlds": wc.len(), "fuzzy_options": nfz, "trees": pc.len()}));
     slices.push(Slice { name: "C", ord: 2, spec: si, trees: pc, worlds: wc, obligations: false });
   }
+  // slice P: schemas whose search analyzer emits several tokens per position
+  let mut anas = anas;
+  let mut alphabets = alphabets;
+  let mut spec_names: Vec<String> = sps.iter().map(|sp| sp.name.to_string()).collect();
+  for ps in pspecs() {
+    let si = anas.len();
+    anas.push(Ana::new(&ps.schema));
+    let leaves = p_leaves(&ps);
+    let tp = trees_slice_p(&leaves);
+    let max_len = if quick { ps.max_len_quick } else { ps.max_len_thorough };
+    let wp = worlds_slice_p(&ps, max_len);
+    bounds.push(json!({"slice": "P-phrase-alternatives", "schema": ps.name, "alphabet": ps.alphabet, "doc_tokens": format!("3..={max_len}"), "docs_per_world": 8, "layouts": "1 and 2 segments", "worlds": wp.len(), "leaves": leaves.len(), "trees": tp.len()}));
+    slices.push(Slice { name: "P", ord: 0, spec: si, trees: prepare(tp, &leaves, None), worlds: wp, obligations: false });
+    alphabets.push((leaves, vec![]));
+    spec_names.push(ps.name.to_string());
+  }
   let acc = Acc {
     evals: AtomicU64::new(0),
     nontrivial: AtomicU64::new(0),
     undetermined: AtomicU64::new(0),
     h9: AtomicU64::new(0),
     obligations: AtomicU64::new(0),
+    multi_alt_cases: AtomicU64::new(0),
     worlds_done: AtomicU64::new(0),
     outcomes: Mutex::new(BTreeSet::new()),
     fails: Mutex::new(BTreeMap::new()),
@@ -1938,7 +2128,8 @@ pub fn run(ctx: &Ctx) -> i32 {
       tasks.push((sli, w));
     }
   }
-  tasks.sort_by_key(|(sli, w)| (slices[*sli].worlds[*w].docs.len(), slices[*sli].ord, slices[*sli].spec, *w));
+  // slices with ord 0 (N, P) come first as a whole so that a wall-clock cap cannot skip them
+  tasks.sort_by_key(|(sli, w)| (if slices[*sli].ord == 0 { 0 } else { slices[*sli].worlds[*w].docs.len() }, slices[*sli].ord, slices[*sli].spec, *w));
   let total_worlds = tasks.len();
   let deadline = std::env::var("VERIF_C07_BUDGET_S").ok().and_then(|s| s.parse::<f64>().ok()).unwrap_or(if quick { 33.0 } else { 870.0 });
   let timed_out = AtomicBool::new(false);
@@ -1983,7 +2174,9 @@ pub fn run(ctx: &Ctx) -> i32 {
     let sa = &fails[*k];
     let sig: Option<&str> = if k.as_str() == "-" { None } else { Some(k.as_str()) };
     let take = if sig.is_none() { 3 } else { 1 };
-    for (n, (_, what, case)) in sa.best.iter().take(take).enumerate() {
+    for (n, (_, what0, case0)) in sa.best.iter().take(take).enumerate() {
+      let (what, case) = shrink_witness(sig, what0, case0);
+      let (what, case) = (&what, &case);
       let (r1, r2) = (run_case(case), run_case(case));
       match (&r1, &r2) {
         (Ok(Some(a)), Ok(Some(b))) if a.1 == b.1 => {}
@@ -2016,7 +2209,7 @@ pub fn run(ctx: &Ctx) -> i32 {
   let per_slice: BTreeMap<String, Value> = acc.per_slice.lock().iter().map(|(k, v)| (k.clone(), json!({"worlds": v.0, "searches": v.1}))).collect();
   let cov = vcore::cov! {
     "distinct_nontrivial" => acc.nontrivial.load(Ordering::Relaxed),
-    "rule" => "a case = (world, query tree[, fuzzy option]); world = schema x sequence of document shapes x every segment layout (composition) x {no deletion, delete one document}; non-trivial = the oracle's hit set is a non-empty proper subset of the live documents and the search agreed. Slice A: all corpora over the full shape alphabet x every leaf alone and under 8 unary wrappers (+2 filter wrappers with a keyword field) + second obligation (term(field, token) for every token the index analyzer emits for a live document). Slice B: core shapes x ALL trees inside tree_bound. Slice N (S0): every parent bool holding one 2-leaf compound child (bool-should with minimum_should_match none/1/2, bool-must, dis_max over every pair of core leaves) in each role plus 0..2 (role x leaf) children x minimum_should_match {none,0,1,2,#should}. Slice C: fuzzy options x positive term leaves and pairs. Oracle: independent boolean evaluator over Analyzer::analyze token streams; cases the documentation does not decide are skipped and counted (undetermined).",
+    "rule" => "a case = (world, query tree[, fuzzy option]); world = schema x sequence of document shapes x every segment layout (composition) x {no deletion, delete one document}; non-trivial = the oracle's hit set is a non-empty proper subset of the live documents and the search agreed. Slice A: all corpora over the full shape alphabet x every leaf alone and under 8 unary wrappers (+2 filter wrappers with a keyword field) + second obligation (term(field, token) for every token the index analyzer emits for a live document). Slice B: core shapes x ALL trees inside tree_bound. Slice N (S0): every parent bool holding one 2-leaf compound child (bool-should with minimum_should_match none/1/2, bool-must, dis_max over every pair of core leaves) in each role plus 0..2 (role x leaf) children x minimum_should_match {none,0,1,2,#should}. Slice C: fuzzy options x positive term leaves and pairs. Slice P: schemas whose search analyzer emits several tokens per position (search-time synonyms one-way / two-way / multi-target, edge_ngram) x EVERY document of 3..max tokens over {start, alternatives, filler} (8 per world, 1 and 2 segments) x phrases of 2..3 terms with the multi-token term at each slot x slop 0..3 as phrase node, query-string phrase and under bool must / should / must_not / must next to a scored term. Oracle: independent boolean evaluator over Analyzer::analyze token streams; cases the documentation does not decide are skipped and counted (undetermined).",
     "bounds" => bounds,
     "worlds" => total_worlds,
     "worlds_completed" => acc.worlds_done.load(Ordering::Relaxed),
@@ -2024,13 +2217,14 @@ pub fn run(ctx: &Ctx) -> i32 {
     "second_obligation_searches" => acc.obligations.load(Ordering::Relaxed),
     "undetermined_not_demanded" => acc.undetermined.load(Ordering::Relaxed),
     "h9_debug_assert_panics_not_judged" => acc.h9.load(Ordering::Relaxed),
+    "cases_with_two_alternatives_of_one_phrase_position_in_a_document" => acc.multi_alt_cases.load(Ordering::Relaxed),
     "per_slice" => per_slice,
     "leaves_never_decided_by_the_documentation" => {
       let mut v: Vec<String> = Vec::new();
-      for (si, sp) in sps.iter().enumerate() {
+      for (si, name) in spec_names.iter().enumerate() {
         for (i, l) in alphabets[si].0.iter().enumerate() {
           if !acc.decided[si][i].load(Ordering::Relaxed) {
-            v.push(format!("{} {}", sp.name, l.to_json()));
+            v.push(format!("{} {}", name, l.to_json()));
           }
         }
       }
